@@ -120,6 +120,43 @@ def static_classes(prog):
         if isinstance(n, ast.Try) and n.finalbody:
             if _own(n.finalbody, (ast.Raise,)) and _own(n.body + n.handlers + n.orelse, (ast.Return, ast.Break, ast.Continue)):
                 cls['raise_in_finally_over_jump'] = True
+    # (17) a declared global assigned inside a converted body: lexically inside an if/while/for, or — after return
+    #      lowering moved "the rest of the block" into an `if not do_return:` guard — after a statement that contains an
+    #      early return in one of the enclosing blocks (control_flow consults scope.nonlocals only, never scope.globals,
+    #      when selecting block variables, and the generated body functions get no `global` declaration)
+    gl = set()
+    for n in ast.walk(fn):
+        if isinstance(n, ast.Global):
+            gl.update(n.names)
+    if gl:
+        def _has_return(st):
+            stack = [st]
+            while stack:
+                x = stack.pop()
+                if isinstance(x, (ast.FunctionDef, ast.Lambda, ast.ClassDef)) and x is not st:
+                    continue
+                if isinstance(x, ast.Return):
+                    return True
+                stack.extend(ast.iter_child_nodes(x))
+            return False
+
+        def _scan(block, in_cf, after_ret):
+            for st in block:
+                if isinstance(st, (ast.FunctionDef, ast.ClassDef)):
+                    continue
+                stores = [x for x in ast.walk(st) if isinstance(x, ast.Name) and isinstance(x.ctx, ast.Store) and x.id in gl] \
+                    if not isinstance(st, (ast.If, ast.While, ast.For, ast.With, ast.Try)) else []
+                if stores and (in_cf or after_ret):
+                    cls['global_assigned_in_converted_block'] = True
+                for fld in ('body', 'orelse', 'finalbody'):
+                    sub = getattr(st, fld, None)
+                    if isinstance(sub, list) and sub and isinstance(sub[0], ast.stmt):
+                        _scan(sub, in_cf or isinstance(st, (ast.If, ast.While, ast.For)), after_ret)
+                for h in getattr(st, 'handlers', []) or []:
+                    _scan(h.body, in_cf, after_ret)
+                if _has_return(st) and not isinstance(st, ast.Return):
+                    after_ret = True
+        _scan(fn.body, False, False)
     # (16) nonlocal/global declared inside a nested block of a (nested) function rather than at its top level: the
     #      parallel-block scope handling of activity analysis loses/misplaces the declaration
     for n in ast.walk(fn):
@@ -210,7 +247,7 @@ def classify(prog, mod, args, dec, static, orig_outcome=None, raised_at_del=Fals
         return 'nested_fn_param_leaks_into_enclosing_bound'
     if 'del_of_unbound_name_does_not_raise' in static and orig_outcome[:2] == ('exc', 'NameError') and raised_at_del:
         return 'del_of_unbound_name_does_not_raise'
-    for k in ('nonlocal_or_global_declared_in_nested_block', 'read_in_class_body', 'namedexpr_in_call_argument', 'call_in_return_annotation_of_nested_def', 'lambda_in_decorator_of_nested_def',
+    for k in ('global_assigned_in_converted_block', 'nonlocal_or_global_declared_in_nested_block', 'read_in_class_body', 'namedexpr_in_call_argument', 'call_in_return_annotation_of_nested_def', 'lambda_in_decorator_of_nested_def',
               'docstring_only_function_body',
               'raise_in_finally_over_jump', 'except_handler_binds_name', 'try_else_block_starts_with_if', 'chained_comparison_effectful_middle_operand'):
         if k in static:
